@@ -41,7 +41,7 @@ What is abstracted
 -/
 import KinModel.Gen.Descent
 import KinModel.Gen.OptionCtors
-import KinModel.Gen.PatternCache
+import KinModel.Gen.C04PatternCache
 namespace KinModel.DocValidate
 
 inductive Kind
@@ -431,16 +431,16 @@ def tableOf (rows : List Gen.DescentRow) : Table :=
 validation, C01) that can observe an entry; a use that can create one (`CompareAndSwap` with old = nil cannot) -/
 def cacheOpKnown (op : String) : Bool :=
   ["Load", "Store", "LoadOrStore", "LoadAndDelete", "Delete", "Swap", "CompareAndSwap", "CompareAndDelete", "Range"].contains op
-def cacheReads (rows : List Gen.PatternCacheRow) : Bool :=
+def cacheReads (rows : List Gen.C04PatternCacheRow) : Bool :=
   rows.any (fun r => r.fn != "Schema.visitJSONString" &&
     (!cacheOpKnown r.op || ["Load", "LoadOrStore", "LoadAndDelete", "Swap", "CompareAndDelete", "Range"].contains r.op))
-def cacheWrites (rows : List Gen.PatternCacheRow) : Bool :=
+def cacheWrites (rows : List Gen.C04PatternCacheRow) : Bool :=
   rows.any (fun r => !cacheOpKnown r.op || ["Store", "LoadOrStore", "Swap"].contains r.op ||
     (r.op = "CompareAndSwap" && r.detail != "old=nil"))
 
 /-- the table of the code under test -/
 def codeTable : Table :=
-  { tableOf Gen.descent with cacheRead := cacheReads Gen.patternCache, cacheWrite := cacheWrites Gen.patternCache }
+  { tableOf Gen.descent with cacheRead := cacheReads Gen.c04PatternCache, cacheWrite := cacheWrites Gen.c04PatternCache }
 
 def litHolds (o : Opts) (a : Attrs) : String → Bool
   | "+examplesValidationDisabled" => o.exDisabled
